@@ -315,6 +315,119 @@ fn datagrams_from_transmit(transmit: &Transmit<'_>) -> Datagrams {
     }
 }
 
+/// Verification wrappers (cfg(iroh_verif) only).
+#[cfg(iroh_verif)]
+pub(crate) mod verif {
+    use std::{
+        io,
+        task::{Context, Poll},
+    };
+
+    use iroh_base::{EndpointId, RelayUrl};
+    use iroh_relay::protos::relay::Datagrams;
+    use n0_future::task::{self, AbortOnDropHandle};
+    use tokio::sync::mpsc;
+
+    use super::{
+        RelayActorMessage, RelayRecvDatagram, RelaySendItem, RelayTransport,
+        actor::HomeRelayWatch,
+    };
+    use crate::socket::transports::{Addr, RecvInfo};
+
+    /// One datagram (or GRO batch) handed to QUIC by `RelayTransport::poll_recv`.
+    #[derive(Debug, Clone)]
+    pub struct RecvOut {
+        /// bytes written to the buffer
+        pub data: Vec<u8>,
+        /// `RecvMeta::stride`
+        pub stride: usize,
+        /// source relay
+        pub url: Option<RelayUrl>,
+        /// source endpoint
+        pub src: Option<EndpointId>,
+    }
+
+    /// A `RelayTransport` whose receive queue is fed by the caller (no relay actor behind it).
+    #[derive(Debug)]
+    pub struct RelayRecvHarness {
+        transport: RelayTransport,
+        tx: mpsc::Sender<RelayRecvDatagram>,
+        _keep: (mpsc::Receiver<RelaySendItem>, mpsc::Receiver<RelayActorMessage>),
+    }
+
+    impl RelayRecvHarness {
+        /// Creates the harness; must be called inside a tokio runtime.
+        pub fn new(my_endpoint_id: EndpointId, queue_capacity: usize) -> Self {
+            let (send_tx, send_rx) = mpsc::channel(4);
+            let (recv_tx, recv_rx) = mpsc::channel(queue_capacity.max(1));
+            let (actor_tx, actor_rx) = mpsc::channel(4);
+            let transport = RelayTransport {
+                relay_datagram_recv_queue: recv_rx,
+                relay_datagram_send_channel: send_tx,
+                pending_item: None,
+                actor_sender: actor_tx,
+                _actor_handle: AbortOnDropHandle::new(task::spawn(async {})),
+                my_relay: HomeRelayWatch::default(),
+                my_endpoint_id,
+            };
+            Self {
+                transport,
+                tx: recv_tx,
+                _keep: (send_rx, actor_rx),
+            }
+        }
+
+        /// What the `ActiveRelayActor` does with a datagram frame received from a relay.
+        pub fn push(&self, url: RelayUrl, src: EndpointId, datagrams: Datagrams) -> bool {
+            self.tx
+                .try_send(RelayRecvDatagram {
+                    url,
+                    src,
+                    datagrams,
+                })
+                .is_ok()
+        }
+
+        /// `RelayTransport::poll_recv` with `n_bufs` buffers of `buf_len` bytes.
+        pub fn poll_recv(
+            &mut self,
+            cx: &mut Context<'_>,
+            n_bufs: usize,
+            buf_len: usize,
+        ) -> Poll<io::Result<Vec<RecvOut>>> {
+            let mut storage: Vec<Vec<u8>> = (0..n_bufs).map(|_| vec![0u8; buf_len]).collect();
+            let mut metas = vec![noq_udp::RecvMeta::default(); n_bufs];
+            let mut infos = vec![RecvInfo::default(); n_bufs];
+            let res = {
+                let mut bufs: Vec<io::IoSliceMut<'_>> =
+                    storage.iter_mut().map(|b| io::IoSliceMut::new(b)).collect();
+                self.transport
+                    .poll_recv(cx, &mut bufs, &mut metas, &mut infos)
+            };
+            match res {
+                Poll::Pending => Poll::Pending,
+                Poll::Ready(Err(e)) => Poll::Ready(Err(e)),
+                Poll::Ready(Ok(n)) => {
+                    let mut out = vec![];
+                    for i in 0..n {
+                        let (url, src) = match infos[i].remote() {
+                            Addr::Relay(u, e) => (Some(u.clone()), Some(*e)),
+                            _ => (None, None),
+                        };
+                        out.push(RecvOut {
+                            data: storage[i][..metas[i].len.min(buf_len)].to_vec(),
+                            stride: metas[i].stride,
+                            url,
+                            src,
+                        });
+                    }
+                    Poll::Ready(Ok(out))
+                }
+            }
+        }
+    }
+}
+
 #[cfg(test)]
 mod tests {
     use std::{collections::BTreeSet, time::Duration};
